@@ -7,6 +7,18 @@
 #include <string.h>
 #include "vsrv.h"
 static int g_port, g_fd[64], g_n, g_init;
+static unsigned char g_buf[64][512]; static int g_blen[64], g_eof[64];
+// reads what is there into the handle's buffer; waits up to ms for more; notes the end of the stream
+static void drain(int h, int ms)
+{
+	while (g_fd[h] >= 0 && !g_eof[h]) {
+		pollfd p = { g_fd[h], POLLIN, 0 };
+		if (poll(&p, 1, ms) <= 0) break;
+		unsigned char b[64]; int n = (int)read(g_fd[h], b, sizeof b);
+		if (n <= 0) { g_eof[h] = 1; break; }
+		for (int i = 0; i < n; i++) if (g_blen[h] < 512) g_buf[h][g_blen[h]++] = b[i];
+	}
+}
 extern "C" int vp_srv_port(void)
 {
 	if (!g_port) {      // a port derived from the process id (parallel replays must not meet), probed once for availability
@@ -26,22 +38,17 @@ extern "C" int vp_cli_connect(const unsigned char* data, int n)
 	if (connect(s, (sockaddr*)&a, sizeof a)) { close(s); return -1; }
 	if (n) (void)!write(s, data, n);
 	if (!g_init) { for (int i = 0; i < 64; i++) g_fd[i] = -1; g_init = 1; }
-	for (int i = 0; i < 64; i++) if (g_fd[i] < 0) { g_fd[i] = s; return i; }
+	for (int i = 0; i < 64; i++) if (g_fd[i] < 0) { g_fd[i] = s; g_blen[i] = 0; g_eof[i] = 0; return i; }
 	close(s);
 	return -1;
 }
 extern "C" int vp_cli_recv(int h, unsigned char* out, int cap)
 {
-	int tot = 0;
-	if (g_fd[h] < 0) return 0;
-	for (;;) {
-		pollfd p = { g_fd[h], POLLIN, 0 };
-		if (poll(&p, 1, tot ? 2000 : 30000) <= 0) break;      // generous: replays run in parallel on a loaded machine
-		unsigned char b[64]; int n = (int)read(g_fd[h], b, sizeof b);
-		if (n <= 0) break;
-		for (int i = 0; i < n; i++) { if (tot < cap) out[tot] = b[i]; tot++; }
-	}
-	return tot;
+	if (g_fd[h] >= 0 && !g_eof[h]) { if (!g_blen[h]) drain(h, 30000); drain(h, 2000); }     // generous: replays run in parallel on a loaded machine
+	for (int i = 0; i < g_blen[h] && i < cap; i++) out[i] = g_buf[h][i];
+	return g_blen[h];
 }
 extern "C" void vp_cli_close(int h) { if (g_fd[h] >= 0) { close(g_fd[h]); g_fd[h] = -1; } }
-extern "C" int vp_srv_closed_by_server(int h) { (void)h; return 1; }
+extern "C" int vp_srv_closed_by_server(int h) { if (g_fd[h] < 0) return 1; drain(h, 1500); return g_eof[h]; }     // natively: end of stream seen within 1.5 s
+extern "C" int vp_srv_accepted(int h) { (void)h; return 1; }
+extern "C" void vp_cli_send(int h, const unsigned char* data, int n) { if (g_fd[h] >= 0 && n) (void)!write(g_fd[h], data, n); }
